@@ -128,7 +128,7 @@ def run_case(case):
             try:
                 out = "v " + hx(trie.get(k))
             except Exception as e:  # noqa
-                out = "exn " + type(e).__name__
+                out = "exn " + common.exc_name(e)
             res.emit("hx.getat %s %s" % (hx(trie.root_hash), hx(k)), out)
         if counts:
             shared["max"] = max(shared["max"], max(counts.values()))
